@@ -433,7 +433,10 @@ def recipeStep (st : CaseSt) (op impl : String) : CaseSt × String :=
         let qtext := match qn.toList with
           | 'q' :: ds => us (st.queries.getD ((String.ofList ds).toNat?.getD 0) "?")
           | _ => "-"
-        if key == "hist" then s!"bad:reader-history-dependent:{qtext}:{r.name}"
+        if key == "bk" then
+          -- what a backup that was cut short left in the target, whether it opens, the re-run: not what `Layout.backup` says
+          s!"bad:partial-backup-differs:{r.name}:{us iv}"
+        else if key == "hist" then s!"bad:reader-history-dependent:{qtext}:{r.name}"
         else if key == "sc" || key == "scm" then
           let refName := match st.refSc.find? (·.1 == qn) with | some (_, _, n) => n | none => "?"
           if key == "scm" then s!"bad:scores-differ-merged:{qn}:{qtext}:{refName}:{r.name}"
